@@ -183,7 +183,13 @@ def c16(tier, seed):
     return naive.check(tier, seed)
 
 
-CHECKS = {"C16": c16, "C06": c06, "C07": c07, "C09": c09, "C08": c08, "C04": c04, "C05": c05, "C01": c01, "C10": c10, "C11": c11, "C12": c12}
+def c18(tier, seed):
+    # part 1: the Matcher protocol (stop / EOS / accepting / error latch) on the learned-oracle model
+    res = rel.check_rel("C18", tier, seed, 120, 3000)
+    return res
+
+
+CHECKS = {"C18": c18, "C16": c16, "C06": c06, "C07": c07, "C09": c09, "C08": c08, "C04": c04, "C05": c05, "C01": c01, "C10": c10, "C11": c11, "C12": c12}
 
 
 def setup():
@@ -194,7 +200,7 @@ def setup():
 SPEC_OF = {"C01": ("Trace_EngineRel", "Trace_EngineRel_all.cfg"), "C10": ("Trace_EngineRel", "Trace_EngineRel_func.cfg"),
            "C11": ("Trace_EngineRel", "Trace_EngineRel_func.cfg"), "C12": ("Trace_EngineRel", "Trace_EngineRel_func.cfg"),
            "C04": ("Trace_Regex", None), "C05": ("Trace_Cfg", None), "C08": ("Trace_Numeric", None),
-           "C09": ("Trace_Count", None), "C16": ("Trace_Naive", None), "C06": ("Trace_Json", None), "C07": ("Trace_Json", None)}
+           "C09": ("Trace_Count", None), "C16": ("Trace_Naive", None), "C18": ("Trace_EngineRel", "Trace_EngineRel_all.cfg"), "C06": ("Trace_Json", None), "C07": ("Trace_Json", None)}
 
 
 def replay(prop, path):
